@@ -145,6 +145,8 @@ def apply_ref(d, op):
         d.update(METHODS[op[1]])
     elif k == "solver":
         d["solver"] = op[1]
+    elif k == "set_der":
+        d["rhs"] = op[1]
     elif k == "set_T":
         d["TT"] = op[1]
     elif k == "set_t0":
@@ -190,6 +192,12 @@ def apply_real(r, d, op):
         st.method(P.make_method(dd))
     elif k == "solver":
         ocp.solver("ipopt", SOLVER_OPTS[op[1]])
+    elif k == "set_der":
+        # the dynamics declared again, with another right-hand side (one set_der call per state)
+        dd = dict(d); dd["rhs"] = op[1]
+        f = P.rhs(P.CA, s, dd)
+        for name, _ in P.state_shapes(dd):
+            st.set_der(s[name], f[name])
     elif k == "set_T":
         st.set_T(op[1])
     elif k == "set_t0":
